@@ -542,10 +542,90 @@ func runC11FailedCreation(c *eng.Ctx, cr *caseRunner) {
 	}
 }
 
+// runC11SiblingChurn: one parent whose children come and go in every order before the parent is
+// closed. k children are created (each owning disposables), one is closed, a new one is created,
+// another one is closed ... (every choice of which), then the parent is closed: whatever
+// bookkeeping the parent keeps about its children, every child that is still open is disposed
+// completely before the parent's own instances.
+func runC11SiblingChurn(c *eng.Ctx, cr *caseRunner) {
+	spec := &Spec{Regs: []Reg{mkReg("Leaf_K0_a", godi.Singleton), mkReg("PosA_2_1", godi.Scoped), mkReg("Leaf_S0_a", godi.Scoped), mkReg("Leaf_S1_a", godi.Transient)}}
+	m := NewModel(spec)
+	if m.Class != ClsOK {
+		panic("harness fixture of runC11SiblingChurn is not buildable: " + m.Class.String())
+	}
+	var plans [][]int // each step: index (into the list of currently open children) of the child to close; after every close but the last a new child is created
+	for _, k := range []int{3, 4} {
+		for a := 0; a < k; a++ {
+			for b := 0; b < k; b++ {
+				plans = append(plans, []int{k, a, b})
+				if k == 3 {
+					for d := 0; d < k; d++ {
+						plans = append(plans, []int{k, a, b, d})
+					}
+				}
+			}
+		}
+	}
+	for pi, plan := range plans {
+		idx, mine := cr.next()
+		if !mine {
+			continue
+		}
+		c.R.Begin(idx)
+		r := NewRun(spec, m, nil, nil)
+		r.Build()
+		if !r.Built {
+			panic("harness fixture of runC11SiblingChurn does not build")
+		}
+		parent := r.Do(Op{Kind: OpCreate, Scope: 0, CtxKind: 1}).NewScope
+		ProbeRegistered(r, parent)
+		var open []int
+		mk := func() {
+			ch := r.Do(Op{Kind: OpCreate, Scope: parent, CtxKind: []int{0, 1, 4}[len(r.Scopes)%3]}).NewScope
+			if ch > 0 {
+				ProbeRegistered(r, ch)
+				open = append(open, ch)
+			}
+		}
+		for i := 0; i < plan[0]; i++ {
+			mk()
+		}
+		for si, pick := range plan[1:] {
+			if len(open) == 0 {
+				break
+			}
+			i := pick % len(open)
+			r.Do(Op{Kind: OpClose, Scope: open[i]})
+			open = append(open[:i], open[i+1:]...)
+			if si < len(plan)-2 {
+				mk()
+			}
+		}
+		r.Do(Op{Kind: OpClose, Scope: parent})
+		// the children that were still open must refuse use now
+		var fs []Finding
+		for _, ch := range open {
+			if g := r.Do(Op{Kind: OpGet, Scope: ch, Type: "S0"}); g.Class == "ok" {
+				fs = append(fs, Finding{"descendant-open-after-parent-close", "sibling-churn", fmt.Sprintf("child s%d still resolves services after its parent s%d has been closed", ch, parent)})
+			}
+		}
+		r.Finish()
+		o := Digest(r)
+		ofs, pairs := MonC11(r, o)
+		fs = append(fs, ofs...)
+		report(c, "C11", idx, r, fs)
+		c.R.Count("sibling_churn_cases", 1)
+		c.R.Count("ordered_pairs_checked", int64(pairs))
+		c.R.Count("close_events", int64(len(o.CloseOrder)))
+		c.R.End(idx, eng.Hash("c11-sibling-churn", pi), pairs >= 1)
+	}
+}
+
 func runC11(c *eng.Ctx) {
 	cr := &caseRunner{c: c, prop: "C11"}
 	defer func() {
 		runC11FailedCreation(c, cr)
+		runC11SiblingChurn(c, cr)
 		RunPassthrough(c, cr.next)
 		RunChainedOutputs(c, cr.next)
 		if C11Concurrent != nil {
